@@ -203,18 +203,19 @@ Lemma is_consistent_spec : forall k q, qos_in_range q -> is_consistent k q = spe
 Proof.
   intros k q (Hms & Hmspi & Hh). unfold is_consistent, spec_consistent, hist_fits, length_lt, len_ge, usize_gt_length,
     dk_lt, dur_ge, len_in_range, wrap_u64, two64, i32_max, u32_max in *.
-  destruct (q_ms q) as [ms|], (q_mspi q) as [mspi|], (q_hist q) as [d|]; cbn [negb andb];
+  destruct (q_ms q) as [ms|], (q_mspi q) as [mspi|], (q_hist q) as [d|]; cbn [negb andb orb];
     try rewrite Z.mod_small by lia;
-    destruct k; cbn [negb andb];
+    destruct k; cbn [negb andb orb];
     repeat match goal with
            | |- context [?a <? ?b] => destruct (Z.ltb_spec a b)
            | |- context [?a <=? ?b] => destruct (Z.leb_spec a b)
-           end; cbn [negb andb]; try reflexivity; try lia;
-    destruct (q_dl q), (q_sep q); cbn [negb andb];
+           | |- context [?a =? 0] => destruct (Z.eqb_spec a 0)
+           end; cbn [negb andb orb]; try reflexivity; try lia;
+    destruct (q_dl q), (q_sep q); cbn [negb andb orb];
     repeat match goal with
            | |- context [?a <? ?b] => destruct (Z.ltb_spec a b)
            | |- context [?a <=? ?b] => destruct (Z.leb_spec a b)
-           end; cbn [negb andb]; try reflexivity; try lia.
+           end; cbn [negb andb orb]; try reflexivity; try lia.
 Qed.
 
 Lemma check_immutability_spec : forall a b, check_immutability a b = spec_imm_same a b.
